@@ -13,7 +13,7 @@ from .. import bounds as B
 from .. import nf
 from .. import terms as T
 from ..harness import (
-    ADAPT, CTRL, SOLVERS, TESTUTIL, A, PrimV, Rec, Session, call, events, mcalls, method, rec_of_atoms, subst, where_of,
+    ADAPT, CTRL, SOLVERS, TESTUTIL, A, PrimV, Rec, Session, call, events, mcalls, method, named, rec_of_atoms, subst, where_of,
 )
 from ..interp import BoundMethod, RaiseSignal
 from ..model import AnalysisError
@@ -137,7 +137,7 @@ def rejection_rules(chk, S, r1, r2, r4):
         stp = mcalls(body, "step")
         ok = (
             isinstance(new_acc, T.Term) and new_acc.op == "getitem" and new_acc.args[1] == 0 and len(est) == 1 and new_acc.args[0] is est[0]
-            and len(stp) == 1 and est[0].kwargs.get("proposed") is stp[0]
+            and len(stp) == 1 and named(est[0], "proposed") is stp[0]
         )
         r1.require(ok, "RejectionLoop.step_attempt.acceptance_factor_proposed", "factor = estimate_error_norm(..., proposed=solver.step(...))[0]",
                    f"acceptance factor of the attempt is {T.show(new_acc, 4)}; expected the first output of error.estimate_error_norm for this attempt's proposal", where_of(new_acc, site), cfg)
@@ -167,15 +167,15 @@ def rejection_rules(chk, S, r1, r2, r4):
             r2.require(body.fields[f] is st.fields[f], f"RejectionLoop.step_attempt.{f}", "passed through unchanged",
                        f"{f} of the loop state is rewritten by an attempt: {T.show(body.fields[f], 3)}", where_of(body.fields[f], site), cfg)
         if len(stp) == 1:
-            r2.require(stp[0].kwargs.get("state") is st.fields["step_from"], "RejectionLoop.step_attempt solver.step(state=)", "steps from state.step_from",
+            r2.require(named(stp[0], "state") is st.fields["step_from"], "RejectionLoop.step_attempt solver.step(state=)", "steps from state.step_from",
                        f"solver.step starts from {T.show(stp[0].kwargs.get('state'), 3)} instead of state.step_from", where_of(stp[0], site), cfg)
         if len(est) == 1:
             e = est[0]
-            pos = e.args[2:]
-            ok = (len(pos) >= 1 and pos[0] is st.fields["error_step_from"]) or e.kwargs.get("state") is st.fields["error_step_from"]
+            pos = [named(e, "state")]
+            ok = named(e, "state") is st.fields["error_step_from"]
             r2.require(ok, "RejectionLoop.step_attempt estimate_error_norm(state)", "error state of step_from",
                        f"error estimator receives {T.show(pos[:1], 3)} instead of state.error_step_from", where_of(e, site), cfg)
-            r2.require(e.kwargs.get("previous") is st.fields["step_from"], "RejectionLoop.step_attempt estimate_error_norm(previous=)", "previous = state.step_from",
+            r2.require(named(e, "previous") is st.fields["step_from"], "RejectionLoop.step_attempt estimate_error_norm(previous=)", "previous = state.step_from",
                        f"previous = {T.show(e.kwargs.get('previous'), 3)}", where_of(e, site), cfg)
         forbidden = {T.atom_name(st.fields[k]) for k in ("proposed", "error_proposed", "acceptance_factor_proposed")}
         dep = T.atoms_of(body) & forbidden
@@ -184,9 +184,9 @@ def rejection_rules(chk, S, r1, r2, r4):
 
         # R4: clipping and identity of the step
         if len(stp) == 1 and len(est) == 1:
-            d = stp[0].kwargs.get("dt")
+            d = named(stp[0], "dt")
             appl = mcalls(body, "apply")
-            ok_same = est[0].kwargs.get("dt") is d and len(appl) == 1 and len(appl[0].args) > 2 and appl[0].args[2] is d
+            ok_same = named(est[0], "dt") is d and len(appl) == 1 and len(appl[0].args) > 2 and appl[0].args[2] is d
             r4.require(ok_same, "RejectionLoop.step_attempt dt identity", "solver.step, error estimator and controller receive the same dt",
                        f"different step sizes: solver {T.show(d, 3)}, estimator {T.show(est[0].kwargs.get('dt'), 3)}, controller {T.show(appl[0].args[2] if appl and len(appl[0].args) > 2 else None, 3)}",
                        where_of(d, site), cfg)
@@ -327,7 +327,7 @@ def checkpoint_rules(chk, S, r5):
     init = sc["init"]
     sol0 = init[0] if isinstance(init, (tuple, list)) and len(init) == 2 else None
     inits = mcalls(init, "init", A("solver"))
-    ok = len(inits) == 1 and sol0 is inits[0] and inits[0].kwargs.get("t") is T.mk("getitem", (save_at, 0))
+    ok = len(inits) == 1 and sol0 is inits[0] and named(inits[0], "t") is T.mk("getitem", (save_at, 0))
     r5.require(ok, "solve_adaptive_save_at.solve solution0", "solution0 = solver.init(t=save_at[0])", f"initial solution {T.show(sol0, 3)}", sc["site"])
     st0 = init[1] if sol0 is not None else None
     ok = isinstance(st0, Rec) and st0.fields.get("step_from") is sol0 and st0.fields.get("interp_from") is sol0 and st0.fields.get("dt") is A("dt0")
